@@ -44,6 +44,7 @@ type schedAgg struct {
 	Aborts      []string
 	SoloProcs   int
 	ColdProcs   int
+	Aged        int // worker processes that were aged (see engine.AgeProcess) before exploring
 }
 
 func newSchedAgg() *schedAgg {
@@ -381,6 +382,8 @@ func (c *checkCtx) absorbSched(w WorkerRun, prop, build string, agg *schedAgg) (
 	done := false
 	for _, d := range w.Docs {
 		switch docType(d) {
+		case "aged":
+			agg.Aged++
 		case "begin":
 			json.Unmarshal(d["pos"], &lastBegin)
 		case "result":
